@@ -140,6 +140,8 @@ def jobs(tier):
         mk('C07', 'fw/chain3', S.forward_chain(3, topo='chain', second_event=True), witnesses=W),
         mk('C07', 'fw/cycle3', S.forward_chain(3, topo='cycle', second_event=True), witnesses=W),
         mk('C07', 'fw/fanin', S.forward_chain(3, topo='fanin'), witnesses=W),
+        mk('C07', 'fw/evict', S.fw_evict(), witnesses=W),
+        mk('C07', 'fw/evict/BADC', S.fw_evict(('B', 'A', 'D', 'C')), witnesses=W),
     ]
     if tier == 'thorough':
         out += [
